@@ -22,7 +22,7 @@ RULE = (
     "worker sets {s1,s2}, {s1,s1}, {s1,s2,s1}, {s1,s2,stat}, {s1,s1,stat}, {s1,s2,s3} (thorough: + {s1,s2,s1,stat}, {s1,s1,s1,s2} and a 9000-character subject name whose row is flushed early) x "
     "{thread mode, forked-process mode} x initial file {header only, header + one finished subject s0}; ALL reachable states of the interleavings of lock acquisitions and file operations "
     "(evaluate = 8-9 scheduling points, make_statistic = 3; the unlocked compute phase is one step). transitions = single scheduling steps, each validated by replaying the real code from the initial state. "
-    "thorough additionally: line granularity - thread mode, 2 workers, one preemption before EVERY source line the preempted worker executes inside panoptica/* (about 5500 per evaluate), for worker sets {s1,s2}, {s1,s1}, {s1,stat} and either worker preempted; "
+    "line granularity inside panoptica_aggregator.py (every tier; thread mode, 2 workers, one preemption before every source line of that module the preempted worker executes, sets {s1,s2}, {s1,s1}, {s1,stat}); thorough additionally: line granularity in all modules - thread mode, 2 workers, one preemption before EVERY source line the preempted worker executes inside panoptica/* (about 5500 per evaluate), for worker sets {s1,s2}, {s1,s1}, {s1,stat} and either worker preempted; "
     "non-trivial = terminal states reached through at least one preemption; distinct by explored state. Toy programs with known state counts / a known race / a known deadlock validate the explorer in every run"
 )
 ASSUMPTIONS = [
@@ -51,11 +51,16 @@ LINE_SETS = [("s1", "s2"), ("s1", "s1"), ("s1", "stat")]
 
 def blocks(tier):
     B = [("toys",)]
+    # line granularity inside the aggregator module (every tier): one preemption before every source line of panoptica_aggregator.py
+    # that the preempted worker executes; thorough: inside every module of the library (about 5500 lines per evaluate)
+    for ws in LINE_SETS:
+        for first in (0, 1):
+            B.append(("line", ws, first, 0, 400, "panoptica_aggregator.py"))
     if tier == "thorough":
         for ws in LINE_SETS:
             for first in (0, 1):
                 for lo in range(0, 7000, 250):
-                    B.append(("line", ws, first, lo, lo + 250))
+                    B.append(("line", ws, first, lo, lo + 250, ""))
     for ws in SETS_Q if tier == "quick" else SETS_T:
         for mode in ("thread", "process"):
             for init in ("header", "one_row"):
@@ -69,8 +74,8 @@ def run_block(block, acc):
     if block[0] == "toys":
         run_case({"kind": "toys"}, acc)
     elif block[0] == "line":
-        _, ws, first, lo, hi = block
-        run_case({"kind": "line", "workers": list(ws), "first": first, "lo": lo, "hi": hi}, acc)
+        _, ws, first, lo, hi, module = block
+        run_case({"kind": "line", "workers": list(ws), "first": first, "lo": lo, "hi": hi, "module": module}, acc)
     else:
         _, ws, mode, init = block
         run_case({"kind": "set", "workers": list(ws), "mode": mode, "init": init}, acc)
@@ -233,11 +238,14 @@ def make_judge(acc, case, fx, workers, mode, init):
                             ok = False
         if ex.preemptions > 0:
             acc.nontriv(tuple(workers), mode, init, tuple(schedule))
+        if len(judge.examples) < 2 and ex.preemptions > 0:
+            judge.examples.append({"schedule(worker ids)": list(schedule), "trace_of_worker_0": ex.workers[0].trace[:12]})
         if ok:
             acc.ok()
         else:
             nviol[0] += 1
 
+    judge.examples = []
     return judge
 
 
@@ -273,7 +281,7 @@ def _explore(acc, case, fx, workers, mode, init, judge):
     acc.step(st["transitions"])
     acc.validated += st["executions"]  # every transition is a replay of the real code from the initial state
     acc.sample({"workers": ["<9000 chars>" if w == "LONG" else w for w in workers], "mode": mode, "initial_file": init, "states": st["states"], "transitions": st["transitions"], "terminal_states": st["terminals"],
-                "max_depth": st["max_depth"], "wall_s": round(time.time() - t0, 1)})
+                "max_depth": st["max_depth"], "wall_s": round(time.time() - t0, 1), "example_terminal_schedules": judge.examples})
     agg.drop_exit_handlers()
 
 
@@ -358,10 +366,10 @@ def _line(case, acc):
     in-memory state that the lock/file-level exploration treats as one step"""
     workers, first, lo, hi = case["workers"], case["first"], case["lo"], case["hi"]
     mode, init = "thread", "header"
-    acc.case("line", tuple(workers), first, lo, hi)
+    acc.case("line", tuple(workers), first, lo, hi, case.get("module", ""))
     fx = Fixture(init, workers)
-    judge = make_judge(acc, {"kind": "line", "workers": workers, "first": first}, fx, workers, mode, init)
-    root = seams.REPO.rstrip("/") + "/panoptica"
+    judge = make_judge(acc, {**case}, fx, workers, mode, init)
+    root = seams.REPO.rstrip("/") + "/panoptica/" + case.get("module", "")
 
     def run(idx):
         bodies, locks, _c = fx.make(workers, mode)()
@@ -386,13 +394,14 @@ def _line(case, acc):
     # number of line events of the first worker (a run whose target is never reached)
     probe = run(-1)
     total = getattr(probe.workers[first], "nlines", 0)
-    acc.count(f"line_events_worker{first}_{'_'.join(workers)}", total if lo == 0 else 0)
+    acc.count(f"line_events_{case.get('module', '') or 'all_modules'}_worker{first}_{'_'.join(workers)}", total if lo == 0 else 0)
     n = 0
-    for idx in range(max(lo, 1), min(hi, total + 1)):
+    only = [x["line_index"] for x in case.get("schedule", []) if isinstance(x, dict) and "line_index" in x]
+    for idx in (only or range(max(lo, 1), min(hi, total + 1))):
         ex = run(idx)
         n += 1
         acc.step()
-        acc.state("line", tuple(workers), first, idx)
+        acc.state("line", tuple(workers), first, idx, case.get("module", ""))
         c2sched = {"line_index": idx, "at": getattr(ex.workers[first], "line_at", None)}
         judge(ex, None, [c2sched])
     if n:
